@@ -3,4 +3,5 @@ INVARIANT Emit
 INVARIANT StaysValid
 CONSTANT Depth = 2
 CONSTANT Family = "C05"
+CONSTANT Dense = FALSE
 CHECK_DEADLOCK FALSE
